@@ -15,6 +15,18 @@ CHECKS = {
     "C03": dict(engine="A+I", technique="exhaustive differential sweep of limb-product operand spaces across 4 native back ends + interpreted execution of the ARM assembly sources",
                 text="Full Cartesian limb-alphabet products of all 384/256-bit operands through every multi-precision/modular primitive on x86-64 BMI2, x86-64 baseline, portable 64- and 32-bit back ends must give identical digests (bisected to a case on mismatch); the AArch64/ARMv6-M sources are executed instruction by instruction on boundary alphabets against integer arithmetic.",
                 note="ARM results rest on the interpreters in armsim/ (trusted base); 64-bit digest collisions ignored", ref="4/C03"),
+    "C04": dict(engine="A", technique="bounded-exhaustive element alphabets x every member x all Frobenius powers x all sparse shapes vs schoolbook quotient-ring arithmetic",
+                text="Every public member of Fq2/Fq6/Fq12 on the full element alphabets (all ordered pairs for binary operations, every sparse operand shape, Frobenius powers 0..25 and two large ones, cyclotomic map/squaring/exponentiation) is compared with schoolbook arithmetic in the defining quotient rings on 3 back ends.",
+                note="Python quotient-ring model is the ground truth; inverse/sqrt checked by their defining relations", ref="4/C04"),
+    "C05": dict(engine="A", technique="exhaustive enumeration of all ordered point pairs x all Jacobian representative pairs x operations vs the affine chord-and-tangent law",
+                text="All ordered pairs of the point alphabet (identity, subgroup points, points outside the subgroup incl. the order-3 point, negatives, doubles) in all representative pairs go through add/add_mixed/double/negate/equal/conversions (C API and C++ members, 3 back ends); each result is normalised by definition in Python and compared with the group law; every exceptional-case class must be hit.",
+                note="Python affine group law is the ground truth", ref="4/C05"),
+    "C06": dict(engine="A", technique="bounded-exhaustive scalar alphabets (all recoding/decomposition boundaries) x bases x every multiplication routine vs Python double-and-add; recoding/decomposition checked as functions",
+                text="Every scalar of S(bits) (incl. 2^bits-j, r-related values, GLV thresholds, base-|x| digit boundaries) x 6 bases x every routine/window/width on 3 back ends equals Python double-and-add; w-NAF digits recombine exactly, stay inside table and buffer; base-|x| digits recombine mod r.",
+                note="Python double-and-add is the ground truth; eigenvalue-based routines only required on subgroup points", ref="4/C06"),
+    "C07": dict(engine="A+E", technique="bounded-exhaustive exponent alphabet x bases x routines vs Python pow; enumeration of all random-source answer sequences with <= 2 deviations",
+                text="All exponents of S(256) x GT bases x 6 exponentiation routes on 3 back ends equal Python pow; group operations on all base pairs; every answer sequence of the random source with at most 2 deviations in the first 12 digit requests (plus tuples hitting y=r-1,r,r+1) yields exactly the exact-rejection-sampling y and base^y.",
+                note="uniformity decided functionally (exact rejection sampling), not statistically", ref="4/C07"),
 }
 
 LEVEL = "model_checking"
